@@ -70,7 +70,8 @@ THang == /\ Is("hang") /\ Step /\ UNCHANGED nextw
 \* steps of the model that produce no event in the recording
 TSilent ==
   /\ Silent
-  /\ \/ PLoop /\ UNCHANGED nextw
+  /\ \/ PStart /\ UNCHANGED nextw
+     \/ PLoop /\ UNCHANGED nextw
      \/ PPut /\ ppc' = "put_wait" /\ UNCHANGED nextw
      \/ (\E w \in Workers : WGet(w) /\ wpc'[w] = "parked") /\ UNCHANGED nextw
      \/ /\ MLoop
